@@ -6,7 +6,7 @@ infrastructure object; that it equals the phasor definition is C06's business an
 import z3
 from pyvc.vtypes import FA
 from pyvc.contracts_api import REG, C, RaiseSpec, LoopSpec
-from pyvc.dsl import And, Or, Not, Implies, If, Eq, AllIdx, AnyIdx
+from pyvc.dsl import And, Or, Not, Implies, If, Eq, AllIdx, AnyIdx, IsNone
 from pyvc.vtypes import Real, Int, Bool, Id, Ref, Opt, Seq, RefSort
 from pyvc import vtypes as ty
 
@@ -83,36 +83,44 @@ def _bis_post(old, new, ret):
     w = z3.Real("bw!post")
     return [
         ("C07.result_feasible", feas_with(sch, idx, ret, inf)),
-        ("within_bracket", And(old._lb <= ret, ret <= old._ub)),
-        ("C08.infeasible_point_within_eps_above", z3.Exists([w], z3.And(ret < w, w <= ret + old.eps, z3.Not(feas_with(sch, idx, w, inf))))),
+        ("within_bracket", Implies(old._lb < old._ub, And(old._lb <= ret, ret <= old._ub))),
+        ("C08.infeasible_point_within_eps_above", Implies(old._lb < old._ub,
+            z3.Exists([w], z3.And(ret < w, w <= ret + old.eps, z3.Not(feas_with(sch, idx, w, inf)))))),
+        ("empty_bracket_returns_lower_bound", Implies(old._lb >= old._ub, Eq(ret, old._lb))),
     ]
 
 
 REG.contract(
     BIS, params=dict(_index=Int, _lb=Real, _ub=Real, _schedule=Seq(Real)), ret=Real, modifies=[],
-    requires=[C("bracket", lambda s: And(s._index >= 0, s._index < s.schedule.len, s._lb < s._ub, s.eps > 0,
+    requires=[C("bracket", lambda s: And(s._index >= 0, s._index < s.schedule.len, s.eps > 0,
                                          feas_with(s.schedule, s._index, s._lb, s.infrastructure),
-                                         Not(feas_with(s.schedule, s._index, s._ub, s.infrastructure))))],
+                                         Implies(s._lb < s._ub, Not(feas_with(s.schedule, s._index, s._ub, s.infrastructure)))))],
     ensures=[C("bisection", _bis_post, props=("C07", "C08"))],
     extra=dict(closure=dict(schedule=Seq(Real), infrastructure=Ref("InfrastructureInfo"), eps=Real)),
 )
 
 
-def _mfr_post(old, new, ret):
-    sch, inf, idx = old.schedule, old.infrastructure, old.station_index
-    w = z3.Real("bw!mfr")
+def mfr_clauses(sch, idx, inf, ub, lb, eps, ret, tag=""):
+    """postcondition of max_feasible_rate as a formula over (schedule, index, bounds, result): reused by the allocation loop's step contract"""
+    w = z3.Real("bw!mfr" + tag)
+    ub_ok = feas_with(sch, idx, ub, inf)
     return [
         ("C07.result_feasible", feas_with(sch, idx, ret, inf)),
-        ("C08.upper_bound_when_feasible", Implies(feas_with(sch, idx, old.ub, inf), Eq(ret, old.ub))),
-        ("C08.otherwise_within_eps_of_an_infeasible_point", Implies(Not(feas_with(sch, idx, old.ub, inf)),
-            And(old.lb <= ret, ret <= old.ub, z3.Exists([w], z3.And(ret < w, w <= ret + old.eps, z3.Not(feas_with(sch, idx, w, inf))))))),
+        ("C08.upper_bound_when_feasible", Implies(ub_ok, Eq(ret, ub))),
+        ("C08.otherwise_within_eps_of_an_infeasible_point", Implies(And(Not(ub_ok), lb < ub),
+            And(lb <= ret, ret <= ub, z3.Exists([w], z3.And(ret < w, w <= ret + eps, z3.Not(feas_with(sch, idx, w, inf))))))),
+        ("C07.lower_bound_when_it_exceeds_an_infeasible_upper_bound", Implies(And(Not(ub_ok), lb >= ub), Eq(ret, lb))),
     ]
+
+
+def _mfr_post(old, new, ret):
+    return mfr_clauses(old.schedule, old.station_index, old.infrastructure, old.ub, old.lb, old.eps, ret)
 
 
 REG.contract(
     SA + "max_feasible_rate",
     params=dict(station_index=Int, ub=Real, schedule=Seq(Real), infrastructure=Ref("InfrastructureInfo"), eps=Real, lb=Real), ret=Real, modifies=[],
-    requires=[C("args", lambda s: And(s.station_index >= 0, s.station_index < s.schedule.len, s.eps > 0, s.lb <= s.ub,
+    requires=[C("args", lambda s: And(s.station_index >= 0, s.station_index < s.schedule.len, s.eps > 0,
                                       # the caller has placed the session at its lower bound before the search
                                       Eq(s.schedule[s.station_index], s.lb)))],
     raises=[RaiseSpec("ValueError", lambda s: Not(feas(s.schedule, s.infrastructure)), iff=True, unchanged=True)],
@@ -135,3 +143,208 @@ def _convexity():
 
 
 REG.lemma("C08.feasible_set_along_one_coordinate_is_an_interval", _convexity, props=("C08",))
+
+
+# ============================================================================ the allocation loops (C07 / C08)
+REG.schema("SortedSchedulingAlgo", bases=["BaseAlgorithm"], estimate_max_rate=Bool, uninterrupted_charging=Bool, allow_overcharging=Bool)
+REG.schema("RoundRobin", bases=["SortedSchedulingAlgo"], continuous_inc=Real)
+IFACE = "acnportal.acnsim.interface.Interface."
+II = "acnportal.acnsim.interface.InfrastructureInfo."
+
+RAPF = z3.Function("RAPF", z3.RealSort(), z3.RealSort(), z3.RealSort(), z3.RealSort(), z3.RealSort())   # remaining demand in amp-periods
+
+
+def net_index(net, sid):
+    return z3.Select(net._station_ids_dict._v.arrs[0], sid)
+
+
+def rap(s, iface, sess):
+    """remaining demand of a session in A*periods: (requested - delivered) kWh * 1000 / V * 60 / period, V = voltage of its station"""
+    sim = iface._simulator
+    net = sim.network
+    v = z3.Select(net._voltages.v.arrs[0], net_index(net, sess.station_id))
+    return RAPF(sess.requested_energy, sess.energy_delivered, v, sim.period)
+
+
+def rapf_def(a, b, v, p):
+    return RAPF(a, b, v, p) == (a - b) * 1000 / v * 60 / p
+
+
+REG.contract(
+    IFACE + "remaining_amp_periods", params=dict(self=Ref("Interface"), ev=Ref("SessionInfo")), ret=Real, modifies=[],
+    assumed="not yet verified from its body (Interface._infrastructure_info builds an InfrastructureInfo from numpy arrays): the result is the "
+            "session's remaining demand converted with the voltage of its station and the simulation period",
+    ensures=[C("C07.remaining_amp_periods", lambda old, new, ret: ret == rap(old, old.self, old.ev))])
+
+
+def infra_wf(s, inf):
+    """shape invariant of InfrastructureInfo (established by its constructor's _validate) + the station index dictionary"""
+    n = inf.station_ids.len
+    d = inf._station_ids_dict._v
+    i = z3.Int("i!iwf")
+    k = z3.Const("k!iwf", ty.IdSort)
+    sid = lambda ii: z3.Select(inf.station_ids.v.arrs[0], ii)
+    return And(n >= 0, inf.phases.len == n, inf.voltages.len == n, inf.max_pilot.len == n, inf.min_pilot.len == n,
+               inf.allowable_pilots.len == n, inf.is_continuous.len == n,
+               FA([i], z3.Implies(z3.And(i >= 0, i < n), z3.And(z3.Select(d.dom, sid(i)), z3.Select(d.arrs[0], sid(i)) == i)),
+                  patterns=[sid(i)]),
+               FA([k], z3.Implies(z3.Select(d.dom, k), z3.And(z3.Select(d.arrs[0], k) >= 0, z3.Select(d.arrs[0], k) < n,
+                                                               sid(z3.Select(d.arrs[0], k)) == k)), patterns=[z3.Select(d.arrs[0], k)]))
+
+
+def st_index(inf, sess_station):
+    return z3.Select(inf._station_ids_dict._v.arrs[0], sess_station)
+
+
+def sess_at(s, q, j):
+    """view of the SessionInfo object at position j of a session list"""
+    return s.obj(z3.Select(q.v.arrs[0], j), "SessionInfo")
+
+
+def sessions_ok(s, q, inf, name="so"):
+    """every listed session is a live object at a registered station with at least one period of rate bounds; one session per station"""
+    j, j2 = z3.Int("j!" + name), z3.Int("j2!" + name)
+    e, e2 = sess_at(s, q, j), sess_at(s, q, j2)
+    return And(FA([j], z3.Implies(z3.And(j >= 0, j < q.len),
+                                  z3.And(e.ref != 0, s.alloc_ref(e.ref), z3.Select(inf._station_ids_dict._v.dom, e.station_id),
+                                         e.min_rates.len >= 1, e.max_rates.len >= 1)), patterns=[z3.Select(q.v.arrs[0], j)]),
+               FA([j, j2], z3.Implies(z3.And(j >= 0, j < j2, j2 < q.len), e.station_id != e2.station_id),
+                  patterns=[z3.MultiPattern(z3.Select(q.v.arrs[0], j), z3.Select(q.v.arrs[0], j2))]))
+
+
+def lb_of(sess):
+    m = z3.Select(sess.min_rates.v.arrs[0], 0)
+    return z3.If(m > 0, m, z3.RealVal(0))
+
+
+def ub_of(s, iface, sess):
+    a, b = z3.Select(sess.max_rates.v.arrs[0], 0), rap(s, iface, sess)
+    return z3.If(b < a, b, a)
+
+
+SORTP = z3.Function("sort_perm", z3.ArraySort(z3.IntSort(), RefSort), z3.IntSort(), z3.IntSort())
+SORTQ = z3.Function("sort_perm_inv", z3.ArraySort(z3.IntSort(), RefSort), z3.IntSort(), z3.IntSort())
+
+
+def is_permutation(ret, evs):
+    j, j2, i = z3.Int("j!perm"), z3.Int("j2!perm"), z3.Int("i!perm")
+    ra, ea = ret.v.arrs[0], evs.v.arrs[0]
+    P, Q = (lambda x: SORTP(ra, x)), (lambda x: SORTQ(ra, x))
+    return And(ret.len == evs.len,
+               FA([j], z3.Implies(z3.And(j >= 0, j < ret.len), z3.And(P(j) >= 0, P(j) < evs.len, z3.Select(ra, j) == z3.Select(ea, P(j)), Q(P(j)) == j)),
+                  patterns=[z3.Select(ra, j)]),
+               FA([i], z3.Implies(z3.And(i >= 0, i < evs.len), z3.And(Q(i) >= 0, Q(i) < ret.len, P(Q(i)) == i)), patterns=[Q(i)]))
+
+
+REG.contract(
+    "callable:SortedSchedulingAlgo._sort_fn", params=dict(evs=Seq(Ref("SessionInfo")), iface=Ref("Interface")), ret=Seq(Ref("SessionInfo")), modifies=[],
+    assumed="the sort function is supplied by the user: it returns a permutation of the sessions it is given and writes nothing (the five sort "
+            "functions of the repository are verified against this contract and their ordering separately)",
+    ensures=[C("permutation", lambda old, new, ret: is_permutation(ret, old.evs))])
+
+
+def zero_unless_served(s, sch, q, inf, upto, name):
+    """a station whose entry is non-zero is the station of one of the first `upto` sessions of the queue"""
+    i, j = z3.Int("i!" + name), z3.Int("j!" + name)
+    return FA([i], z3.Implies(z3.And(i >= 0, i < sch.len, z3.Select(sch.v.arrs[0], i) != 0),
+                              z3.Exists([j], z3.And(j >= 0, j < upto, st_index(inf, sess_at(s, q, j).station_id) == i))),
+              patterns=[z3.Select(sch.v.arrs[0], i)])
+
+
+def _sa_loop0_inv(s):
+    q, inf, sch = s.queue, s.infrastructure, s.schedule
+    j = z3.Int("j!l0")
+    e = sess_at(s, q, j)
+    return [
+        ("length", sch.len == inf.station_ids.len),
+        ("served_sessions_at_their_lower_bound", FA([j], z3.Implies(z3.And(j >= 0, j < s._k),
+                                                                   z3.Select(sch.v.arrs[0], st_index(inf, e.station_id)) == lb_of(e)),
+                                                    patterns=[z3.Select(q.v.arrs[0], j)])),
+        ("zero_elsewhere", zero_unless_served(s, sch, q, inf, s._k, "l0z")),
+    ]
+
+
+def _sa_loop1_inv(s):
+    q, inf, sch = s.queue, s.infrastructure, s.schedule
+    iface = s.self._interface
+    j = z3.Int("j!l1")
+    e = sess_at(s, q, j)
+    val = z3.Select(sch.v.arrs[0], st_index(inf, e.station_id))
+    lb, ub = lb_of(e), ub_of(s, iface, e)
+    return [
+        ("length", sch.len == inf.station_ids.len),
+        ("C07.feasible_after_every_grant", feas(sch, inf)),
+        ("pending_sessions_at_their_lower_bound", FA([j], z3.Implies(z3.And(j >= s._k, j < q.len), val == lb), patterns=[z3.Select(q.v.arrs[0], j)])),
+        ("C07.granted_within_bounds", FA([j], z3.Implies(z3.And(j >= 0, j < s._k),
+                                                         z3.And(val >= z3.If(lb < ub, lb, ub), val <= z3.If(lb < ub, ub, lb), val >= 0)),
+                                         patterns=[z3.Select(q.v.arrs[0], j)])),
+        ("C07.zero_elsewhere", zero_unless_served(s, sch, q, inf, q.len, "l1z")),
+    ]
+
+
+def _sa_step(head, end):
+    """C08: what one iteration of the allocation loop does, relative to the grants already made (the schedule at the loop head)"""
+    q, inf = head.queue, head.infrastructure
+    iface = head.self._interface
+    e = head.session
+    idx = st_index(inf, e.station_id)
+    sch0, sch1 = head.schedule, end.schedule
+    r = z3.Select(sch1.v.arrs[0], idx)
+    lb, ub = lb_of(e), ub_of(head, iface, e)
+    cont = z3.Select(inf.is_continuous.v.arrs[0], idx)
+    ap = inf.allowable_pilots.v
+    ap_vals, ap_len = z3.Select(ap.arrs[0], idx), z3.Select(ap.arrs[1], idx)
+    m, m2 = z3.Int("m!step"), z3.Int("m2!step")
+    level = lambda mm: z3.Select(ap_vals, mm)
+    in_range = lambda x: z3.And(lb <= x, x <= ub)
+    is_level = z3.Exists([m], z3.And(m >= 0, m < ap_len, level(m) == r, in_range(r), feas_with(sch0, idx, r, inf)))
+    higher_infeasible = FA([m2], z3.Implies(z3.And(m2 >= 0, m2 < ap_len, in_range(level(m2)), level(m2) > r), z3.Not(feas_with(sch0, idx, level(m2), inf))),
+                           patterns=[z3.Select(ap_vals, m2)])
+    none_feasible = FA([m2], z3.Implies(z3.And(m2 >= 0, m2 < ap_len, in_range(level(m2))), z3.Not(feas_with(sch0, idx, level(m2), inf))),
+                       patterns=[z3.Select(ap_vals, m2)])
+    return [
+        ("C08.only_this_sessions_entry_changes", And(sch1.len == sch0.len, sch1.v.arrs[0] == z3.Store(sch0.v.arrs[0], idx, r))),
+        ("C08.served_in_queue_order", end._k == head._k + 1),
+    ] + [("continuous/" + t, Implies(cont, g)) for t, g in mfr_clauses(sch0, idx, inf, ub, lb, z3.RealVal("0.01"), r, tag="st")] + [
+        ("C08.finite_rate_station_gets_its_largest_feasible_level", Implies(Not(cont), z3.Or(z3.And(is_level, higher_infeasible), z3.And(r == 0, none_feasible)))),
+    ]
+
+
+def _sa_post(old, new, ret):
+    inf = old.infrastructure
+    return [
+        ("C07.schedule_feasible", feas(ret, inf)),
+        ("one_entry_per_station", ret.len == inf.station_ids.len),
+    ]
+
+
+def sorted_strictly(seqseq, idx):
+    """the allowable-pilot list of station idx is strictly increasing (C13: FiniteRatesEVSE advertises a sorted duplicate-free list)"""
+    vals, n = z3.Select(seqseq.arrs[0], idx), z3.Select(seqseq.arrs[1], idx)
+    a, b = z3.Int("a!ss"), z3.Int("b!ss")
+    return FA([a, b], z3.Implies(z3.And(a >= 0, a < b, b < n), z3.Select(vals, a) < z3.Select(vals, b)),
+              patterns=[z3.MultiPattern(z3.Select(vals, a), z3.Select(vals, b))])
+
+
+def all_levels_sorted(inf):
+    i = z3.Int("i!als")
+    ap = inf.allowable_pilots.v
+    a, b = z3.Int("a!als"), z3.Int("b!als")
+    vals, n = (lambda ii: z3.Select(ap.arrs[0], ii)), (lambda ii: z3.Select(ap.arrs[1], ii))
+    return FA([i, a, b], z3.Implies(z3.And(i >= 0, i < ap.len, a >= 0, a < b, b < n(i)), z3.Select(vals(i), a) < z3.Select(vals(i), b)),
+              patterns=[z3.MultiPattern(z3.Select(vals(i), a), z3.Select(vals(i), b))])
+
+
+REG.contract(
+    SA + "sorting_algorithm",
+    params=dict(self=Ref("SortedSchedulingAlgo"), active_sessions=Seq(Ref("SessionInfo")), infrastructure=Ref("InfrastructureInfo")),
+    ret=Seq(Real), modifies=[],
+    requires=[C("interface_registered", lambda s: Not(IsNone(s.self._interface))),
+              C("infrastructure_wf", lambda s: infra_wf(s, s.infrastructure)),
+              C("levels_sorted", lambda s: all_levels_sorted(s.infrastructure)),
+              C("sessions", lambda s: sessions_ok(s, s.active_sessions, s.infrastructure))],
+    raises=[RaiseSpec("ValueError", lambda s: True, iff=False, unchanged=True)],
+    ensures=[C("greedy", _sa_post, props=("C07",))],
+    loops={0: LoopSpec(invariant=_sa_loop0_inv),
+           1: LoopSpec(invariant=_sa_loop1_inv, step=_sa_step)},
+)
